@@ -27,7 +27,9 @@ CONSTANTS EMIT,       \* TRUE: print one EMIT record per method evaluation
           Step,       \* lattice base indices are the multiples of Step
           EpsStep,    \* the same for the (slow, un-jitted) epsilon-greedy policy
           NKeys,      \* random keys 0..NKeys-1 per sampling case
+          EpsKeys,    \* random keys per epsilon-greedy case
           FreqN,      \* rows of the sampling-frequency / noise-moment cases
+          FreqStep,   \* sampling-frequency cases at the multiples of FreqStep
           Deviation   \* "none", or the name of a deviation definition (canary)
 
 VARIABLES stage,      \* "start" -> "head" -> "shape" -> "case"
@@ -271,7 +273,7 @@ SoftmaxSample(key) ==
               support |-> [r \in 1..Rows(bat) |-> ZeroBased(Support(rs[r]))]])
 
 SoftmaxSampleFrequency(key) ==
-  /\ Case("SoftmaxPolicy") /\ bat = 0
+  /\ Case("SoftmaxPolicy") /\ bat = 0 /\ idx % FreqStep = 0
   /\ LET row == SoftRow(dim, idx)
      IN Emit("SoftmaxPolicy.sample_frequency",
              [logits |-> [k \in 1..dim |-> FJson(Logit(row, k))], rows |-> FreqN, key |-> key],
@@ -325,7 +327,7 @@ Next == \/ \E h \in AllHeads : ChooseHead(h)
         \/ SoftmaxCall \/ SoftmaxLogits \/ SoftmaxLogProbability \/ SoftmaxEntropy
         \/ \E key \in Keys : SoftmaxSample(key) \/ SoftmaxSampleFrequency(key)
         \/ \E s \in 0..2 : \/ TableGreedy(s) \/ NetGreedy(s)
-                           \/ \E eps \in {0, 1}, key \in Keys : TableEpsilonGreedy(s, eps, key)
+                           \/ \E eps \in {0, 1}, key \in 0..(EpsKeys - 1) : TableEpsilonGreedy(s, eps, key)
 
 Spec == Init /\ [][Next]_vars
 
